@@ -54,6 +54,16 @@ fn main() {
             let cov = c07::run(&rep);
             rep.finish(cov)
         }
+        "c02" => {
+            let rep = Report::new("C02", "exploration");
+            let cov = c06::run_c02(&rep);
+            rep.finish(cov)
+        }
+        "c14" => {
+            let rep = Report::new("C14", "model_checking");
+            let cov = c07::run_c14(&rep);
+            rep.finish(cov)
+        }
         "c09" => {
             let rep = Report::new("C09", "model_checking");
             let cov = c06::run_c09(&rep);
